@@ -147,11 +147,13 @@ fseek(fp, marker, SEEK_SET);
 ```
 `data` has capacity `cap`; at `EOF` the byte stored is `(char)-1 = 0xff`.  The C string that results is the
 stored bytes up to the first NUL (there is none before `ptr`, 0 ends the loop). -/
+def charOf (c : Option UInt8) : UInt8 := match c with | some b => b | none => 0xff
+
 def getStringLoop (f : Bytes) (cap len : Nat) : Nat → FPos → List UInt8 → Except Fault (List UInt8)
   | 0, _, _ => .error .outOfFuel
   | fuel + 1, p, acc =>
     let (c, p1) := getc f p
-    let ch : UInt8 := match c with | some b => b | none => 0xff
+    let ch : UInt8 := charOf c
     if c = some 0 then
       if acc.length < cap then .ok acc.reverse else .error .index
     else if acc.length < cap then
